@@ -118,6 +118,24 @@ def check(ctx):
                     r1.ok("%s: %s on a vector sorted just before" % (short_path(fid), c.name))
                 else:
                     r1.bad(V(r1.id, fid, "adjacent-dedup:%s" % c.name, "Vec::%s on data that is not sorted first keeps non-adjacent duplicates: the surviving set depends on the order in which items were discovered" % c.name, c.file, c.line))
+    if ctx.tier == "thorough":
+        # completeness of the type-driven enumeration against an independent enumerator (clippy::iter_over_hash_type): see crossref.py
+        import crossref
+        names = set()
+        for fid in reach:
+            base = re.sub(r"::\{closure#\d+\}", "", fid)
+            base = re.sub(r"^<(.+?) as .+?>::", lambda m: m.group(1).split("::")[-1] + "::", base)
+            base = re.sub(r"::<[^>]*>", "", base)
+            parts = base.split("::")
+            names.add("::".join(parts[-2:]))
+            names.add(parts[-1])
+        ours = set((s_.call.file, s_.call.line) for s_ in sites)
+        n_all, n_reach, gp = crossref.gaps(ctx, "unord", ours, names)
+        for (code, file, line, fn_) in gp:
+            r1.bad(V(r1.id, fn_, "enumeration-gap:%s" % code, "%s reports a hash-ordered loop at %s:%d inside the reachable function %s, in which UNORD enumerated no site: the enumeration lost coverage" % (code, file, line, fn_), file, line))
+        r1.notes.append("cross-reference: %d lint sites, %d inside reachable functions, %d gaps" % (n_all, n_reach, len(gp)))
+        if not gp:
+            r1.ok("cross-reference: %d clippy iter_over_hash_type sites, %d in reachable functions, all inside functions where UNORD enumerated sites" % (n_all, n_reach))
     r1.require_floor(12, "reachable unordered-iteration consumption sites")
     rules.append(r1)
 
